@@ -29,52 +29,52 @@ Nu(f, x) == Len(x) - f.M - f.P
 
 \* two sided Student t quantile t((1+p)/2; nu) times 10^6 for p in <<1/2, 683/1000, 9/10, 19/20, 99/100>>
 \* (scipy.stats.t.ppf, rounded); nu = 2 is also available exactly: t^2 = 2 p^2 / (1 - p^2)
-PNum == <<500, 683, 900, 950, 990>>      \* p * 1000
-TQ(nu) == CASE nu = 1 -> <<1000000, 1839473, 6313752, 12706205, 63656741>>
-            [] nu = 2 -> <<816497, 1322404, 2919986, 4302653, 9924843>>
-            [] nu = 3 -> <<764892, 1197804, 2353363, 3182446, 5840909>>
-            [] nu = 4 -> <<740697, 1142465, 2131847, 2776445, 4604095>>
-            [] nu = 5 -> <<726687, 1111299, 2015048, 2570582, 4032143>>
-            [] nu = 6 -> <<717558, 1091333, 1943180, 2446912, 3707428>>
-            [] nu = 7 -> <<711142, 1077458, 1894579, 2364624, 3499483>>
-            [] nu = 8 -> <<706387, 1067259, 1859548, 2306004, 3355387>>
-            [] nu = 9 -> <<702722, 1059447, 1833113, 2262157, 3249836>>
-            [] nu = 11 -> <<697445, 1048272, 1795885, 2200985, 3105807>>
-            [] nu = 13 -> <<693829, 1040664, 1770933, 2160369, 3012276>>
-            [] nu = 14 -> <<692417, 1037703, 1761310, 2144787, 2976843>>
-            [] nu = 16 -> <<690132, 1032926, 1745884, 2119905, 2920782>>
-            [] nu = 17 -> <<689195, 1030971, 1739607, 2109816, 2898231>>
-            [] nu = 18 -> <<688364, 1029239, 1734064, 2100922, 2878440>>
-            [] nu = 19 -> <<687621, 1027694, 1729133, 2093024, 2860935>>
-            [] nu = 10 -> <<699812, 1053274, 1812461, 2228139, 3169273>>
-            [] nu = 12 -> <<695483, 1044138, 1782288, 2178813, 3054540>>
-            [] nu = 15 -> <<691197, 1035150, 1753050, 2131450, 2946713>>
-            [] nu = 20 -> <<686954, 1026308, 1724718, 2085963, 2845340>>
-            [] nu = 24 -> <<684850, 1021941, 1710882, 2063899, 2796940>>
-            [] nu = 30 -> <<682756, 1017611, 1697261, 2042272, 2749996>>
-            [] nu = 31 -> <<682486, 1017054, 1695519, 2039513, 2744042>>
-            [] nu = 32 -> <<682234, 1016533, 1693889, 2036933, 2738481>>
-            [] nu = 40 -> <<680673, 1013315, 1683851, 2021075, 2704459>>
-            [] nu = 50 -> <<679428, 1010755, 1675905, 2008559, 2677793>>
-            [] nu = 60 -> <<678601, 1009056, 1670649, 2000298, 2660283>>
-            [] nu = 80 -> <<677569, 1006939, 1664125, 1990063, 2638691>>
-            [] nu = 100 -> <<676951, 1005673, 1660234, 1983972, 2625891>>
-            [] nu = 120 -> <<676540, 1004831, 1657651, 1979930, 2617421>>
-            [] nu = 200 -> <<675718, 1003151, 1652508, 1971896, 2600634>>
-            [] nu = 300 -> <<675308, 1002313, 1649949, 1967903, 2592316>>
-            [] nu = 500 -> <<674981, 1001644, 1647907, 1964720, 2585698>>
-            [] nu = 1000 -> <<674735, 1001143, 1646379, 1962339, 2580755>>
-            [] nu = 1001 -> <<674735, 1001142, 1646377, 1962337, 2580750>>
-            [] nu = 1200 -> <<674694, 1001059, 1646124, 1961943, 2579933>>
-            [] nu = 1500 -> <<674653, 1000976, 1645870, 1961547, 2579111>>
-            [] nu = 2000 -> <<674612, 1000892, 1645616, 1961151, 2578290>>
-            [] nu = 3000 -> <<674572, 1000809, 1645362, 1960755, 2577469>>
-            [] nu = 5000 -> <<674539, 1000742, 1645158, 1960439, 2576813>>
-            [] nu = 5001 -> <<674539, 1000742, 1645158, 1960438, 2576813>>
-            [] nu = 5002 -> <<674539, 1000742, 1645158, 1960438, 2576813>>
-            [] nu = 5003 -> <<674539, 1000742, 1645158, 1960438, 2576812>>
-            [] nu = 5004 -> <<674539, 1000742, 1645158, 1960438, 2576812>>
-            [] nu = 5005 -> <<674539, 1000742, 1645158, 1960438, 2576812>>
+PNum == <<10, 100, 500, 683, 900, 950, 990>>      \* p * 1000 (two probabilities below one half as well)
+TQ(nu) == CASE nu = 1 -> <<15709, 158384, 1000000, 1839473, 6313752, 12706205, 63656741>>
+            [] nu = 2 -> <<14143, 142134, 816497, 1322404, 2919986, 4302653, 9924843>>
+            [] nu = 3 -> <<13604, 136598, 764892, 1197804, 2353363, 3182446, 5840909>>
+            [] nu = 4 -> <<13334, 133830, 740697, 1142465, 2131847, 2776445, 4604095>>
+            [] nu = 5 -> <<13172, 132175, 726687, 1111299, 2015048, 2570582, 4032143>>
+            [] nu = 6 -> <<13064, 131076, 717558, 1091333, 1943180, 2446912, 3707428>>
+            [] nu = 7 -> <<12988, 130293, 711142, 1077458, 1894579, 2364624, 3499483>>
+            [] nu = 8 -> <<12930, 129707, 706387, 1067259, 1859548, 2306004, 3355387>>
+            [] nu = 9 -> <<12886, 129253, 702722, 1059447, 1833113, 2262157, 3249836>>
+            [] nu = 11 -> <<12821, 128594, 697445, 1048272, 1795885, 2200985, 3105807>>
+            [] nu = 13 -> <<12777, 128139, 693829, 1040664, 1770933, 2160369, 3012276>>
+            [] nu = 14 -> <<12759, 127961, 692417, 1037703, 1761310, 2144787, 2976843>>
+            [] nu = 16 -> <<12731, 127671, 690132, 1032926, 1745884, 2119905, 2920782>>
+            [] nu = 17 -> <<12719, 127552, 689195, 1030971, 1739607, 2109816, 2898231>>
+            [] nu = 18 -> <<12709, 127447, 688364, 1029239, 1734064, 2100922, 2878440>>
+            [] nu = 19 -> <<12699, 127352, 687621, 1027694, 1729133, 2093024, 2860935>>
+            [] nu = 10 -> <<12850, 128890, 699812, 1053274, 1812461, 2228139, 3169273>>
+            [] nu = 12 -> <<12797, 128347, 695483, 1044138, 1782288, 2178813, 3054540>>
+            [] nu = 15 -> <<12744, 127806, 691197, 1035150, 1753050, 2131450, 2946713>>
+            [] nu = 20 -> <<12691, 127267, 686954, 1026308, 1724718, 2085963, 2845340>>
+            [] nu = 24 -> <<12665, 126998, 684850, 1021941, 1710882, 2063899, 2796940>>
+            [] nu = 30 -> <<12638, 126730, 682756, 1017611, 1697261, 2042272, 2749996>>
+            [] nu = 31 -> <<12635, 126695, 682486, 1017054, 1695519, 2039513, 2744042>>
+            [] nu = 32 -> <<12632, 126663, 682234, 1016533, 1693889, 2036933, 2738481>>
+            [] nu = 40 -> <<12612, 126462, 680673, 1013315, 1683851, 2021075, 2704459>>
+            [] nu = 50 -> <<12596, 126301, 679428, 1010755, 1675905, 2008559, 2677793>>
+            [] nu = 60 -> <<12586, 126194, 678601, 1009056, 1670649, 2000298, 2660283>>
+            [] nu = 80 -> <<12573, 126061, 677569, 1006939, 1664125, 1990063, 2638691>>
+            [] nu = 100 -> <<12565, 125981, 676951, 1005673, 1660234, 1983972, 2625891>>
+            [] nu = 120 -> <<12560, 125928, 676540, 1004831, 1657651, 1979930, 2617421>>
+            [] nu = 200 -> <<12549, 125821, 675718, 1003151, 1652508, 1971896, 2600634>>
+            [] nu = 300 -> <<12544, 125768, 675308, 1002313, 1649949, 1967903, 2592316>>
+            [] nu = 500 -> <<12540, 125725, 674981, 1001644, 1647907, 1964720, 2585698>>
+            [] nu = 1000 -> <<12537, 125693, 674735, 1001143, 1646379, 1962339, 2580755>>
+            [] nu = 1001 -> <<12537, 125693, 674735, 1001142, 1646377, 1962337, 2580750>>
+            [] nu = 1200 -> <<12536, 125688, 674694, 1001059, 1646124, 1961943, 2579933>>
+            [] nu = 1500 -> <<12536, 125683, 674653, 1000976, 1645870, 1961547, 2579111>>
+            [] nu = 2000 -> <<12535, 125677, 674612, 1000892, 1645616, 1961151, 2578290>>
+            [] nu = 3000 -> <<12535, 125672, 674572, 1000809, 1645362, 1960755, 2577469>>
+            [] nu = 5000 -> <<12534, 125668, 674539, 1000742, 1645158, 1960439, 2576813>>
+            [] nu = 5001 -> <<12534, 125668, 674539, 1000742, 1645158, 1960438, 2576813>>
+            [] nu = 5002 -> <<12534, 125668, 674539, 1000742, 1645158, 1960438, 2576813>>
+            [] nu = 5003 -> <<12534, 125668, 674539, 1000742, 1645158, 1960438, 2576812>>
+            [] nu = 5004 -> <<12534, 125668, 674539, 1000742, 1645158, 1960438, 2576812>>
+            [] nu = 5005 -> <<12534, 125668, 674539, 1000742, 1645158, 1960438, 2576812>>
             [] OTHER -> <<>>
 \* a probability very close to one: p = 1 - k 2^-e = 1 - 5 * 2^-24 is a number of both scalar types,
 \* the argument (1+p)/2 = 1 - 5 * 2^-25 of the quantile only of f64 (an f32 computation of it is off
@@ -91,20 +91,20 @@ TQFine(nu) == CASE nu = 1 -> [v |-> 2136141486, d |-> 3]
 \* 5000..5005 are consecutive so that every instance (N <= 6) reaches a sample count above 5000
 BigNus == {7, 8, 9, 10, 11, 12, 13, 14, 15, 16, 17, 18, 19, 20, 24, 30, 31, 32, 40, 50, 60, 80, 100, 120, 200, 300, 500, 1000, 1001, 1200, 1500, 2000, 3000, 5000, 5001, 5002, 5003, 5004, 5005}
 \* the quantile decreases with the degrees of freedom and stays above the normal quantile
-NormalQ == <<674490, 1000642, 1644854, 1959964, 2575829>>
-TQDecreasing == \A i \in 1..5 :
+NormalQ == <<12533, 125661, 674490, 1000642, 1644854, 1959964, 2575829>>
+TQDecreasing == \A i \in 1..7 :
    /\ \A n1, n2 \in (1..6) \cup BigNus : n1 < n2 => TQ(n1)[i] >= TQ(n2)[i]
    /\ \A n \in (1..6) \cup BigNus : TQ(n)[i] > NormalQ[i]
 \* exact check of the table row nu = 2 against the closed form, to 1e-6 relative:
 \*   |tq^2 (1 - p^2) - 2 p^2 10^12| small; in units that fit 32 bit: use p*1000 and tq/1000
-TQ2Consistent == \A i \in 1..5 :
+TQ2Consistent == \A i \in 3..7 :
    LET p == PNum[i]
        t == TQ(2)[i] \div 1000          \* t * 1000
    IN  \* t^2 (10^6 - p^2) ~ 2 p^2 10^6   (all scaled by 10^6), tolerance 1 %
        LET lhs == ((t * t) \div 1000) * ((1000000 - p * p) \div 100)      \* ~ t^2 (1-p^2) * 10^7
            rhs == 20 * p * p                                           \* 2 p^2 * 10^7
        IN (lhs - rhs) * 100 <= rhs /\ (rhs - lhs) * 100 <= rhs
-TQMonotone == \A nu \in 1..6 : \A i \in 1..4 : TQ(nu)[i] < TQ(nu)[i + 1]
+TQMonotone == \A nu \in 1..6 : \A i \in 1..6 : TQ(nu)[i] < TQ(nu)[i + 1]
 
 (* everything the statistics need, or lvl = 0 when 32 bit would overflow / H is singular *)
 StatEval(f, x, w, a, c, r0) ==
